@@ -154,7 +154,8 @@ def r2(ctx):
     arith = [(bi, t) for bi, t in b.calls(r"(TimeDelta|DateTime<Tz>|DateTime::<Tz>|NaiveDateTime|NaiveDate).*::(checked_\w+|num_\w+|signed_duration_since|timestamp\w*|abs|sub|add|date_naive|duration_round|duration_trunc|round_subsecs|trunc_subsecs)$|ops::(Add|Sub)::(add|sub)$")
              if not any("log" in m_ or "format" in m_ for m_ in b.blocks[bi]["tspan"].get("macros", []))]
     allowed = {"checked_sub_signed", "checked_add_signed"}
-    extra = [(bi, t) for bi, t in arith if t["callee"].split("::")[-1] not in allowed]
+    # arithmetic whose result is only rendered (a log line) decides nothing
+    extra = [(bi, t) for bi, t in arith if t["callee"].split("::")[-1] not in allowed and not only_formatted(b, t["dest"]["local"])]
     for bi, t in extra:
         yield VIOL("C04-R2", "prevalidate/time-arith:" + t["callee"].split("::")[-1], "unreviewed timestamp arithmetic `%s` in prevalidate (resolution loss / alternative window computation)" % t["callee"], where=b.span_of_block(bi))
     if not extra:
